@@ -52,8 +52,10 @@ MANIFEST = dict(
     '(all marginal utilities at zero tiny / negative, tiny and huge budgets, one dominant good) on the real code; KKT relation evaluated by the Lean driver on every real forecast; '
     'pointwise comparison of U, U\', inverse, identification and forecast with the Float model; brute-force comparison; numeric utility vs symbolic utility and its engine gradient; '
     'the REAL signature text of the symbolic utility run by the proved engine model (leanrun) and compared with Mdcev.symbolicU and with the real engine; Mdcev.validation, '
-    'Mdcev.forecast, forecast_comparison_one_draw and validate_forecast under relabelling; parameters supplied through estimation_results (fresh object, object that has already '
-    'forecast, row objects used before and after) against a model built with the values and against Mdcev.updateModel; info_gamma_parameters.',
+    'Mdcev.forecast, forecast_comparison_one_draw and validate_forecast under relabelling; histories on ONE object of every variant: used at the starting values (numeric pieces / validation / table forecast / one-draw forecast on row objects used again / all) -> '
+    'parameters changed (every group at once or one group: psi, gamma, alpha, mu, scale, prices; through the estimation_results setter, and once per variant through estimate_parameters '
+    'in a fresh process) -> numeric pieces = closed forms at the NEW values (Lean model and a model built with the values), forecasts = those of a model built with the values and KKT '
+    'with marginal utilities from that model, validation silent, expressions = Mdcev.updateModel; info_gamma_parameters.',
     design='DESIGN.md §5 C18',
     technique='Lean 4 theorems over an executable model + relation evaluated on real forecasts + differential correspondence + relabelling stream + engine-model run of the built formula',
     note='Partial: SLSQP (brute force) is external, only "forecast >= brute force - tolerance" is required; concavity on the documented domain 0 < alpha < 1, gamma > 0, price > 0; '
@@ -908,13 +910,13 @@ def build_estimated(prob, labels, start):
 
     n = prob['n']
     x, z = Variable('x'), Variable('z')
-    B = lambda name, lb=None: Beta(name, start[name], lb, None, 0)
+    B = lambda name, lb=None, ub=None: Beta(name, start[name], lb, ub, 0)
     base = {labels[j]: B(f'c_{j}') + B(f'b_{j}') * x for j in range(n)}
     gam = {labels[j]: (None if prob['outside'] == j else B(f'g_{j}', 0.001)) for j in range(n)}
-    alp = {labels[j]: B(f'a_{j}') for j in range(n)}
-    scale = None if prob['scale'] is None else B('scale')
+    alp = {labels[j]: B(f'a_{j}', 0.05, 0.95) for j in range(n)}
+    scale = None if prob['scale'] is None else B('scale', 0.1)
     v = prob['variant']
-    prices = None if prob['prices'] is None else {labels[j]: B(f'p_{j}') for j in range(n)}
+    prices = None if prob['prices'] is None else {labels[j]: B(f'p_{j}', 0.1) for j in range(n)}
     if v == 'translated':
         return Translated('m', base, gam, alp, scale)
     if v == 'gamma_profile':
@@ -943,12 +945,43 @@ def true_betas(prob):
     return t
 
 
-def check_estimated(ctx, res, prob, labels, lname, used_before):
-    """parameter values that arrive through `estimation_results` (the setter runs
-    _update_parameters_in_expressions): a model whose parameters START elsewhere must, once the results are set,
-    forecast exactly like a model built with those values, its numeric and symbolic utilities must agree
-    (validation) and every expression a forecast reads must carry the estimated values (Lean: updateModel).
-    `used_before`: the object has already forecast the same rows with its starting values."""
+BEFORE_MODES = [False, 'pieces', 'validation', 'table', 'same_row', 'all']
+PARAM_GROUPS = {'psi': ('c_', 'b_'), 'gamma': ('g_',), 'alpha': ('a_',), 'mu': ('m_',), 'scale': ('scale',), 'prices': ('p_',)}
+
+
+def group_of(name):
+    return next(g for g, pre in PARAM_GROUPS.items() if name.startswith(pre))
+
+
+def other_value(name, val):
+    """a starting value that differs substantially from the value to come"""
+    if name.startswith('a_'):
+        return 0.5 if abs(val - 0.5) > 0.1 else 0.2
+    if name.startswith(('g_', 'p_')) or name == 'scale':
+        return 1.0 if abs(val - 1.0) > 0.4 else 3.0
+    return 0.0 if abs(val) > 0.3 else 0.75
+
+
+def numeric_pieces(model, labels, row, eps_row, xs, lam_of):
+    """utility, derivative and closed-form consumption of every alternative, through the numeric entry points"""
+    out = {}
+    for k in labels:
+        e = float(eps_row[model.key_to_index[k]])
+        u = [safe(model.utility_one_alternative, the_id=k, the_consumption=x, epsilon=e, one_observation=row)[0] for x in xs]
+        d = [safe(model.derivative_utility_one_alternative, the_id=k, the_consumption=x, epsilon=e, one_observation=row)[0] for x in xs]
+        i = [safe(model.optimal_consumption_one_alternative, the_id=k, dual_variable=l, epsilon=e, one_observation=row)[0] for l in lam_of[k]]
+        out[k] = [[float('nan') if v is None else float(v) for v in vec] for vec in (u, d, i)]
+    return out
+
+
+def check_estimated(ctx, res, prob, labels, lname, used_before, groups=None, route='setter'):
+    """HISTORY on one model object: (1) it is used at its starting values (`used_before`: numeric pieces /
+    validation / forecast of the table / one-draw forecast and validation on row objects that are used again / all
+    of them), (2) the parameter values change (`groups`: which groups of parameters start elsewhere, None = all;
+    `route`: the setter of estimation_results, or estimate_parameters), (3) it is used again.  After the change the
+    numeric pieces must be the closed forms at the NEW values (Lean model; a model built with the values), the
+    forecasts those of a model built with the values and KKT points for marginal utilities computed from a model
+    built with the values, validation silent, and every expression a forecast reads carries the new values."""
     import pandas as pd
     from biogeme.database import Database
     from biogeme.results import bioResults
@@ -961,18 +994,14 @@ def check_estimated(ctx, res, prob, labels, lname, used_before):
             return dict(self._betas) if my_betas is None else {b: self._betas[b] for b in my_betas}
 
     truth = true_betas(prob)
-    start = {}
-    for name, val in truth.items():
-        if name.startswith('a_'):
-            start[name] = 0.5 if val != 0.5 else 0.25
-        elif name.startswith(('g_', 'p_')) or name == 'scale':
-            start[name] = 1.0 if val != 1.0 else 2.0
-        else:
-            start[name] = 0.0 if val != 0.0 else 0.5
-    sub = {'problem': prob, 'labels': labels, 'labeling': lname, 'estimated': True, 'used_before': used_before}
+    start = {name: (other_value(name, val) if groups is None or group_of(name) in groups else val) for name, val in truth.items()}
+    sub = {'problem': prob, 'labels': labels, 'labeling': lname, 'estimated': True, 'used_before': used_before, 'groups': groups, 'route': route}
     WE = make_where(False, {'problem': prob, 'labels': labels})
-    res.count({'estimated': prob['variant'], 'labels': labels, 'used_before': used_before, 'truth': truth}, nontrivial=True)
+    res.count({'estimated': prob['variant'], 'labels': labels, 'used_before': used_before, 'groups': groups, 'truth': truth}, nontrivial=True)
     res.tally(f'estimated:used_before={used_before}')
+    res.tally(f'estimated:{prob["variant"]}:before={used_before}')
+    res.tally('estimated:groups=' + ('all' if groups is None else '+'.join(groups)))
+    xs = [0.5, 2.75]
     with core.scratch():
         model, err = safe(build_estimated, prob, labels, start)
         fresh, err2 = safe(build_estimated, prob, labels, truth)
@@ -982,13 +1011,26 @@ def check_estimated(ctx, res, prob, labels, lname, used_before):
         db = Database('estimation', pd.DataFrame(prob['rows']))
         eps = [np.array([eps_vector(model, labels, ea) for ea in prob['eps'][r]]) for r in range(len(prob['rows']))]
         row_objs = [Database(f'row_{r}', pd.DataFrame([prob['rows'][r]])) for r in range(len(prob['rows']))]
-        if used_before:
+        # multipliers in the domain of every closed form at the NEW values
+        lam_of = {}
+        for j, k in enumerate(labels):
+            if prob['variant'] == 'non_monotonic':
+                m0 = prob['mu_c'][j] + 0.125 * prob['rows'][0]['z'] + prob['eps'][0][0][j] / (prob['scale'] or 1.0)
+                lam_of[k] = [m0 + 0.05, m0 + 1.0]
+            else:
+                lam_of[k] = [0.05, 1.0]
+        # (1) uses at the starting values
+        if used_before in ('pieces', 'all'):
+            numeric_pieces(model, labels, row_objs[0], eps[0][0], xs, lam_of)
+        if used_before in ('validation', 'all'):
+            safe(model.validation, row_objs[0])
+        if used_before in ('table', 'same_row', 'all'):
             safe(model.forecast, db, prob['budget'], eps, False, 1e-13, 1e-13)
-        if used_before == 'same_row':
-            # the one-row entry points on row objects that are used again after the estimation
+        if used_before in ('same_row', 'all'):
             for r, ro in enumerate(row_objs):
                 safe(model.forecast_bisection_one_draw, ro, prob['budget'], eps[r][0].copy())
             safe(model.validation, row_objs[0])
+        # (2) the change
         before = lean_params(prob, model)
         _, serr = safe(setattr, model, 'estimation_results', Estimated(truth))
         if serr is not None:
@@ -1004,13 +1046,37 @@ def check_estimated(ctx, res, prob, labels, lname, used_before):
                 res.diverge('_update_parameters_in_expressions vs Mdcev.updateModel (expressions read by a forecast)', sub, got, want, where='')
 
         ctx.batch.add(req, cb)
-        # oracle 1: every parameter of every expression a forecast reads carries the estimated value
+        # (3) oracle 1: every parameter of every expression a forecast reads carries the estimated value
         for e in forecast_exprs_of(after):
             for name, val in e:
                 if name in truth and val != truth[name]:
                     res.violate(f'after estimation the parameter {name} of an expression of the model still has the value {val}', sub, val, truth[name],
                                 where='Mdcev._update_parameters_in_expressions')
-        # oracle 2: forecasts = forecasts of a model built with the estimated values
+        # oracle 2: the numeric pieces are the closed forms at the NEW values - against a model built with the values
+        # (old row object and a new one) and against the Lean model evaluated on the new values
+        new_row = Database('row_0', pd.DataFrame([prob['rows'][0]]))
+        want_p = numeric_pieces(fresh, labels, Database('row_0', pd.DataFrame([prob['rows'][0]])), eps[0][0], xs, lam_of)
+        order = list(model.index_to_key)
+        alts = {a['label']: a for a in lean_alts(prob, labels, order, 0, prob['eps'][0][0])}
+        for which, row in (('a row object used before the change', row_objs[0]), ('a new row object', new_row)):
+            got_p = numeric_pieces(model, labels, row, eps[0][0], xs, lam_of)
+            for k in labels:
+                for name, g, w in zip(('utility_one_alternative', 'derivative_utility_one_alternative', 'optimal_consumption_one_alternative'), got_p[k], want_p[k]):
+                    if any(not close(u, v, 1e-10, 1e-12) for u, v in zip(g, w)):
+                        res.violate(f'after the change of the parameters {name} ({which}) is not the function of the new values',
+                                    {**sub, 'alt': k}, g, w, where=f'Mdcev.{name} (after estimation)')
+            if which.startswith('a new') and prob.get('regime') != 'low_marginal':
+                for k in labels:
+                    rq = {'op': 'pieces', 'variant': prob['variant'], 'scale': jscale(prob), 'alt': alts[k], 'xs': [f2b(x) for x in xs], 'lams': [f2b(l) for l in lam_of[k]]}
+
+                    def cbp(ans, k=k, real=got_p[k]):
+                        for name, rv in zip(('U', 'dU', 'inv'), real):
+                            m = [b2f(b) for b in ans[name]]
+                            if any(not close(u, v, 1e-9, 1e-11) for u, v in zip(m, rv)):
+                                res.diverge(f'{name} after the change of the parameters: Lean model at the new values vs code', {**sub, 'alt': k}, m, rv, where='')
+
+                    ctx.batch.add(rq, cbp)
+        # oracle 3: forecasts = forecasts of a model built with the estimated values
         out, e1 = safe(model.forecast, db, prob['budget'], eps, False, 1e-13, 1e-13)
         ref, e2 = safe(fresh.forecast, Database('reference', pd.DataFrame(prob['rows'])), prob['budget'], eps, False, 1e-13, 1e-13)
         if (out is None) != (ref is None):
@@ -1024,7 +1090,7 @@ def check_estimated(ctx, res, prob, labels, lname, used_before):
             if any(not close(u, v, 1e-9, 1e-12) for k in a for u, v in zip(a[k], b[k])):
                 res.violate('forecast after estimation differs from the forecast of a model built with the estimated values', {**sub, 'row': r}, a, b,
                             where=WE('Mdcev.forecast (after estimation)'))
-            # oracle 3: KKT with the marginal utilities of the symbolic utility of a model built with the values
+            # oracle 4: KKT with the marginal utilities of the symbolic utility of a model built with the values
             row = Database(f'row_{r}', pd.DataFrame([prob['rows'][r]]))
             x_by_label = {k: float(df[k].iloc[0]) for k in labels}
             why, oerr = safe(oracle_symbolic, fresh, row, prob, labels, eps[r][0], x_by_label)
@@ -1034,8 +1100,8 @@ def check_estimated(ctx, res, prob, labels, lname, used_before):
         if val is None or val:
             res.violate(f'Mdcev.validation after estimation: {val if val is not None else verr}', sub, val if val is not None else verr, [],
                         where='Mdcev.validation (after estimation)')
-        if used_before == 'same_row':
-            # the row objects seen BEFORE the estimation: same forecasts as a model built with the estimated values
+        if used_before in ('same_row', 'all', 'validation', 'pieces'):
+            # the row objects seen BEFORE the change: same forecasts as a model built with the estimated values
             for r, ro in enumerate(row_objs):
                 one, oerr = safe(model.forecast_bisection_one_draw, ro, prob['budget'], eps[r][0].copy())
                 want, werr = safe(fresh.forecast_bisection_one_draw, Database(f'row_{r}', pd.DataFrame([prob['rows'][r]])), prob['budget'], eps[r][0].copy())
@@ -1047,6 +1113,76 @@ def check_estimated(ctx, res, prob, labels, lname, used_before):
             if val is None or val:
                 res.violate(f'Mdcev.validation on a row object already used before the estimation: {(val if val is not None else verr)!s:.300}', sub,
                             val if val is not None else verr, [], where=F_C18_4_WHERE)
+
+
+def estimate_history(payload):
+    """(fresh interpreter) the same history with the parameters changed by estimate_parameters on the object: use at
+    the starting values, estimate on a small synthetic sample, use again; returns the numeric pieces / forecast of
+    the object after the estimation and those of a model BUILT with the estimated values"""
+    import random
+
+    import pandas as pd
+    from biogeme.database import Database
+    from biogeme.expressions import Variable
+
+    prob, labels = payload['problem'], payload['labels']
+    truth = true_betas(prob)
+    start = {k: other_value(k, v) for k, v in truth.items()}
+    rng = random.Random(payload['seed'])
+    n = prob['n']
+    xs = [0.5, 2.75]
+    lam_of = {k: [3.0, 6.0] for k in labels}
+    with core.scratch():
+        model = build_estimated(prob, labels, start)
+        rows = []
+        for _ in range(40):
+            q = [rng.choice([0.0, 0.25 + rng.random() * 5]) for _ in range(n)]
+            q[prob['outside'] if prob['outside'] is not None else 0] = 0.5 + rng.random() * 5
+            rows.append({'x': rng.randint(-8, 8) / 8, 'z': rng.randint(0, 8) / 4, **{f'q{j}': q[j] for j in range(n)}, 'nch': float(sum(1 for v in q if v > 0))})
+        row = Database('row_0', pd.DataFrame([prob['rows'][0]]))
+        e = eps_vector(model, labels, prob['eps'][0][0])
+        numeric_pieces(model, labels, row, e, xs, lam_of)
+        safe(model.validation, row)
+        safe(model.forecast_bisection_one_draw, row, prob['budget'], e.copy())
+        r, err = safe(model.estimate_parameters, Database('sample', pd.DataFrame(rows)), Variable('nch'), {labels[j]: Variable(f'q{j}') for j in range(n)})
+        if r is None:
+            return {'skipped': f'estimation failed: {err}'[:300]}
+        est = {k: float(v) for k, v in r.get_beta_values().items()}
+        if not all(math.isfinite(v) for v in est.values()):
+            return {'skipped': 'estimates are not finite'}
+        moved = max(abs(est[k] - start[k]) for k in est)
+        fresh = build_estimated(prob, labels, {**start, **est})
+        out = {'estimates': est, 'moved': moved}
+        for name, m, ro in (('object', model, row), ('built', fresh, Database('row_0', pd.DataFrame([prob['rows'][0]])))):
+            fc, ferr = safe(m.forecast_bisection_one_draw, ro, prob['budget'], e.copy())
+            out[name] = {'pieces': {str(k): v for k, v in numeric_pieces(m, labels, ro, e, xs, lam_of).items()},
+                         'forecast': ferr if fc is None else {str(k): float(v) for k, v in fc.items()},
+                         'validation': [str(x) for x in (safe(m.validation, ro)[0] or [])]}
+        return out
+
+
+def check_estimate_route(res, prob, labels, seed):
+    sub = {'problem': prob, 'labels': labels, 'estimate_route': True, 'seed': seed}
+    out = core.run_isolated('props.c18', 'estimate_history', {'problem': prob, 'labels': labels, 'seed': seed}, timeout=300)
+    res.count({'estimate_parameters': prob['variant'], 'labels': labels}, nontrivial=True)
+    if '__error__' in out or 'skipped' in out:
+        res.tally('estimate_route:skipped')
+        res.notes.append(f'estimate_parameters route ({prob["variant"]}) not usable: {str(out)[:200]}')
+        return
+    res.tally(f'estimate_route:{prob["variant"]}')
+    a, b = out['object'], out['built']
+    bad = [k for k in a['pieces'] for u, v in zip(sum(a['pieces'][k], []), sum(b['pieces'][k], [])) if not close(u, v, 1e-9, 1e-11)]
+    if bad:
+        res.violate('after estimate_parameters the numeric pieces of the object are not those of a model built with the estimated values',
+                    sub, {k: a['pieces'][k] for k in sorted(set(bad))}, {k: b['pieces'][k] for k in sorted(set(bad))}, where='Mdcev.estimate_parameters (numeric pieces after)')
+    fa, fb = a['forecast'], b['forecast']
+    if isinstance(fa, dict) != isinstance(fb, dict) or (isinstance(fa, dict) and any(not close(fa[k], fb[k], 1e-8, 1e-10) for k in fa)):
+        res.violate('after estimate_parameters the forecast of the object differs from the forecast of a model built with the estimated values', sub, fa, fb,
+                    where='Mdcev.estimate_parameters (forecast after)')
+    va = [m for m in a['validation'] if not m.startswith('Inconsistent dual variables')]
+    vb = [m for m in b['validation'] if not m.startswith('Inconsistent dual variables')]
+    if va and not vb:
+        res.violate(f'after estimate_parameters Mdcev.validation reports: {va[:3]}', sub, va, [], where='Mdcev.estimate_parameters (validation after)')
 
 
 def lean_params(prob, model):
@@ -1199,6 +1335,12 @@ def check(ctx) -> Result:
         check_estimated(ctx, res, prob, labs['sparse'], 'sparse', used_before=False)
         res.tally('corpus')
     check_estimated(ctx, res, CORPUS[0][0], CORPUS[0][1]['sparse'], 'sparse', used_before='same_row')
+    for v_i, v in enumerate(VARIANTS):
+        # one history per variant and per way of using the object before the change, on a fixed problem
+        hp = {**CORPUS[3][0], 'variant': v, 'budget': 10.0, 'regime': 'normal', 'prices': CORPUS[3][0]['prices'] if v in ('gamma_profile', 'generalized') else None,
+              'mu_c': [-0.5, -0.25, 0.0], 'scale': 2.0}
+        for mode in ('pieces', 'validation', 'table'):
+            check_estimated(ctx, res, hp, CORPUS[3][1]['sparse'], 'sparse', used_before=mode, groups=['gamma'] if mode == 'pieces' else None)
     # the listed known findings: their own inputs first
     check_problem(ctx, res, KNOWN_F_C18_1, KNOWN_F_C18_1_LABELS, pieces=False)
     check_problem(ctx, res, KNOWN_F_C18_2, KNOWN_F_C18_2_LABELS, pieces=False, comparison=True)
@@ -1211,7 +1353,8 @@ def check(ctx) -> Result:
         check_problem(ctx, res, prob, labs, brute=False, pieces=False)
         res.tally('known_shape_stream')
     n_cmp = ctx.n(12, 100)
-    for i in range(ctx.n(115, 1100)):
+    est_count = {}
+    for i in range(ctx.n(105, 1100)):
         prob = gen_problem(rng, variant=VARIANTS[i % 4])
         labs = main_labelings(rng, prob)
         res.tally(f'regime={prob["regime"]}')
@@ -1219,11 +1362,20 @@ def check(ctx) -> Result:
         if i % (5 if ctx.quick else 3) == 1 and labs:
             ln = sorted(labs)[i % len(labs)]
             check_scenarios(ctx, res, prob, labs[ln], ln)
-        if i % (6 if ctx.quick else 4) == 2 and labs:
+        if i % (5 if ctx.quick else 3) == 2 and labs:
+            # (5 and 3 are coprime to the 4 variants: every variant meets every way of using the object before)
+            n_est = est_count.get(prob['variant'], 0)
+            est_count[prob['variant']] = n_est + 1
             ln = sorted(labs)[(i // 2) % len(labs)]
-            check_estimated(ctx, res, prob, labs[ln], ln, used_before=[False, 'table', 'same_row'][(i // 6) % 3])
+            present = sorted({group_of(nm) for nm in true_betas(prob)})
+            groups = None if n_est % 2 == 0 else [present[(i // 5) % len(present)]]
+            check_estimated(ctx, res, prob, labs[ln], ln, used_before=BEFORE_MODES[1:][n_est % (len(BEFORE_MODES) - 1)], groups=groups)
         if sum(1 for v in res.violations if v.get('where') not in (F_C18_1_WHERE, F_C18_2_WHERE, F_C18_3_WHERE, F_C18_4_WHERE)) > 5:
             break
+    for v_i, v in enumerate(VARIANTS):
+        hp = {**CORPUS[3][0], 'variant': v, 'budget': 10.0, 'regime': 'normal', 'prices': CORPUS[3][0]['prices'] if v in ('gamma_profile', 'generalized') else None,
+              'mu_c': [-0.5, -0.25, 0.0], 'scale': None}
+        check_estimate_route(res, hp, CORPUS[3][1]['sparse'], ctx.seed * 4 + v_i)
     for _ in range(ctx.n(30, 300)):
         check_constructor(res, rng, batch=ctx.batch)
     ctx.batch.flush()
@@ -1258,7 +1410,7 @@ def search(ctx, res, broken):
             if labs:
                 ln = sorted(labs)[0]
                 check_scenarios(shim, r2, prob, labs[ln], ln)
-                check_estimated(shim, r2, prob, labs[ln], ln, used_before=[False, 'table'][i % 2])
+                check_estimated(shim, r2, prob, labs[ln], ln, used_before=BEFORE_MODES[i % len(BEFORE_MODES)])
         except Exception as e:  # noqa: BLE001
             res.notes.append(f'search: {type(e).__name__}: {e}')
             continue
@@ -1284,8 +1436,12 @@ def replay(ctx, obj):
         labs = {'other': sub['other_labels'], **labs}
     r = Result()
     shim = _Shim(core.rng_for('C18-replay', 0))
+    if sub.get('estimate_route'):
+        check_estimate_route(r, prob, sub['labels'], sub.get('seed', 0))
+        out.update({'property_fails': bool(r.violations), 'violations': [{'what': v['what'], 'observed': v['observed'], 'expected': v['expected']} for v in r.violations[:3]]})
+        return out
     if sub.get('estimated'):
-        check_estimated(shim, r, prob, sub['labels'], sub.get('labeling', 'given'), used_before=sub.get('used_before'))
+        check_estimated(shim, r, prob, sub['labels'], sub.get('labeling', 'given'), used_before=sub.get('used_before'), groups=sub.get('groups'))
         out.update({'property_fails': bool(r.violations), 'violations': [{'what': v['what'], 'observed': v['observed'], 'expected': v['expected']} for v in r.violations[:3]]})
         return out
     if sub.get('validate_forecast'):
